@@ -388,6 +388,22 @@ def Closure.call (cl : Closure) (st : St) : Closure × GVal :=
     let v := get st cl.key cl.fb
     ({ cl with flag := st.gen, val := v }, v)
 
+/-- `config.ValidityFlag` (config/validity.go): holds a pointer to one of the global validity flags, or — before the
+    first `Refresh` — a private flag that is never set (`none`). Global flags are numbered by generation; only the
+    current one is still set (`signalChanges` unsets the old flag before installing a new one). -/
+structure VFlag where
+  flag : Option Nat := none
+  deriving DecidableEq, Repr, Inhabited
+
+/-- `NewValidityFlag()`: "It always starts out as invalid." -/
+def VFlag.new : VFlag := {}
+
+/-- `(*ValidityFlag).IsValid()`. -/
+def VFlag.isValid (vf : VFlag) (st : St) : Bool := vf.flag == some st.gen
+
+/-- `(*ValidityFlag).Refresh()`: take the current global flag. -/
+def VFlag.refresh (_ : VFlag) (st : St) : VFlag := { flag := some st.gen }
+
 /-- `Option.UserValue()` (`none` = nil) — `IsSetByUser()` is `isSome`. -/
 def userValue (st : St) (k : Key) : Option (Option GVal) :=
   (st.find k).map (fun o => o.user.map (fun c => c.proj o.ty))
